@@ -95,7 +95,8 @@ extern "C" fn remove_private_tmp() {
 pub fn enter_private_tmp() {
     if std::env::var_os("A5SIM_SHARED_TMP").is_some() {
         // a world of a chain: the chain's directory is also where relative paths land
-        let cwd = std::env::temp_dir().join("cwd");
+        let root = std::env::var("A5SIM_FS_ROOT").map(std::path::PathBuf::from).unwrap_or_else(|_| std::env::temp_dir());
+        let cwd = root.join("cwd");
         if std::fs::create_dir_all(&cwd).is_ok() {
             let _ = std::env::set_current_dir(&cwd);
         }
